@@ -4,6 +4,8 @@ CONSTANTS
   NPKG = 3
   PEERANSWERS = FALSE
   CLOSESIGNAL = TRUE
+  Closers = {"X"}
+  RECHECK = TRUE
   GEN = FALSE
 INVARIANTS C13_NoDeliveryAfterClose C13_ClosedReported
 PROPERTIES C13_CloseReturns C13_RecvReturnsAfterCancel
